@@ -781,3 +781,9 @@ M('zmq-D82-shape-unlink-by-name', ['C06'], Z, "                        if os.sta
 
 M('zmq-D83-shape-close-keeps-balanced-lock', ['C06'], Z, "                                if balance:  # the half set was what locked the balanced receiver onto this source, the others are listened to again\n                                    for s in sendervs:\n                                        if s.sub not in poller:\n                                            poller.register(s.sub, zmq.POLLIN)\n", "", ['C06.R18'])
 M('zmq-D83-shape-entry-keeps-balanced-lock', ['C06'], Z, "                    if s.sub not in poller:\n                        poller.register(s.sub, zmq.POLLIN)  # was unregistered when it completed, or when", "                    if s.got_all:\n                        poller.register(s.sub, zmq.POLLIN)  # was unregistered when it completed, or when", ['C06.R18'])
+M('sweep-mq-recv-state-sense-inverted', ['C02', 'C06'], MQ, "        self.recv_state = recv_state if frames is not None else None  #", "        self.recv_state = recv_state if frames is None else None  #", ['C02.R7', 'C06.R14'])
+M('sweep-mq-exit-msg-only-without-receiver', ['C08'], MQ, "        if self.receiver is not None:\n            self.receiver.send_oob(reason)", "        if self.receiver is None:\n            self.receiver.send_oob(reason)", ['C08.R11'])
+M('sweep-mq-poll-sense-inverted', ['C08'], MQ, "        if self.sender is not None:\n            self.sender.poll()", "        if self.sender is None:\n            self.sender.poll()", ['C08.R11', 'C08.R7'])
+M('sweep-mq-destroy-skips-existing-sender', ['C08'], MQ, "        if self.sender:\n            self.sender.destroy()", "        if not self.sender:\n            self.sender.destroy()", ['C08.R11'])
+M('sweep-mq-recv-empty-with-sources', ['C03'], MQ, "        if self.receiver is None:\n            return {}", "        if self.receiver is not None:\n            return {}", ['C03.R18'])
+M('sweep-mq-recv-none-when-data-came', ['C03'], MQ, "timeout)) is None:\n            return None\n\n        topicmsgs, self.send_state = res", "timeout)) is not None:\n            return None\n\n        topicmsgs, self.send_state = res", ['C03.R18'])
